@@ -351,3 +351,26 @@ _cases_without_life = cases
 def cases(rng, tier):
     yield from _cases_without_life(rng, tier)
     yield from _life.cases(rng, tier, {'addr'})
+
+
+# ---- operands far beyond any address width (thousands of decimal digits: CPython refuses to print ints of more than 4300
+# digits, so an error path that formats the operand or the result must not change the exception class), and shift counts in
+# the thousands
+_cases_without_huge = cases
+
+
+def cases(rng, tier):
+    yield from _cases_without_huge(rng, tier)
+    huge = [10 ** 4350, -(10 ** 4350), 2 ** 20000 + 1, -(2 ** 16384), 10 ** 4299, 2 ** 4096 - 1]
+    for ver in (4, 6):
+        w = gens.W[ver]
+        for v in (0, 1, 2 ** w - 1, rng.getrandbits(w)):
+            for n in huge:
+                for cmd in ("c14_add", "c14_radd", "c14_sub", "c14_rsub", "c14_iadd", "c14_isub", "c14_or", "c14_and", "c14_xor"):
+                    yield (cmd, [ver, v, n], "%s_huge" % cmd[4:])
+            for n in (5000, 20000):
+                yield ("c14_lshift", [ver, v, n], "lshift_huge")
+                yield ("c14_rshift", [ver, v, n], "rshift_huge")
+    for n in huge:
+        for version in (None, 4, 6):
+            yield ("c14_ctor", [n, version], "ctor_huge")
